@@ -272,7 +272,8 @@ Section Transfer.
     - intros f c0 args Hin. split; [eapply Hres; exact Hin|]. eapply Hcal. exact Hin.
     - exact Hdep.
     - cbn [app] in Hex. rewrite app_nil_r in Hex, Hsn, Hlo.
-      exists out, t1. unfold deep_copy_as_heap. rewrite zero_fields_same, Hex. cbn [bind].
+      exists out, t1. unfold deep_copy_as_heap, as_body. cbn [option_map DC.run_ptr_copy]. rewrite PDS.zero_struct.
+      unfold into_as. rewrite Hex. cbn [bind DC.run_ptr_copy].
       assert (Hs : DC.snapshot (h ++ t1) (DC.VStruct out) = DC.snapshot h (DC.VStruct fin)).
       { rewrite !PDS.snapshot_struct, Hsn. reflexivity. }
       assert (Hf : forall a, In a (DC.locs (DC.VStruct out)) -> List.length h <= a < List.length (h ++ t1)).
